@@ -5,6 +5,7 @@ import itertools
 import random
 
 import asyncgen
+import susrender
 import vlib
 
 PID = "C13"
@@ -131,6 +132,45 @@ def main(argv):
     chk.obligation("oracle: is_loading <=> an unfinished task under the boundary or an ancestor, after every step", not orfail, str(orfail[:1]))
     for i in (0, len(cases) // 2, len(cases) - 1):
         chk.sample({"program": asyncgen.sx_nodes(cases[i][0]), "schedule": asyncgen.sx_steps(cases[i][1]), "output": impl[i]})
+    # ---- part 2: the three SSR modes (Async/Stream.v against render_to_string / _await_suspense / _stream) ----
+    okb, outb, binr = vlib.cargo_build("ssr-driver")
+    chk.obligation("cargo build ssr-driver against /repo", okb, outb)
+    if not okb:
+        chk.violation({"property": PID, "broken": "harness build", "output": outb[-2000:]}, no_input=True)
+        return chk.finish()
+    rcases = susrender.cases(a.tier, rng)
+    try:
+        rimpl = susrender.run_impl(binr, rcases)
+    except RuntimeError as e:
+        chk.violation({"property": PID, "broken": "ssr-driver run", "detail": str(e)}, no_input=True)
+        return chk.finish()
+    rmodel = None
+    vlib.coq_make(["theories/Async/Stream.vo"])
+    try:
+        rmodel = susrender.run_model(PID + "r", rcases)
+    except RuntimeError as e:
+        broken.append("model evaluation (Stream.v): " + str(e)[-500:])
+        chk.obligation("model evaluation (Stream.v)", False, str(e))
+    rmism = []
+    for i, ((vs, sched), im) in enumerate(zip(rcases, rimpl)):
+        obs = susrender.observe(*im)
+        seen = susrender.model_lines(obs, sched)
+        fails = susrender.oracle(vs, sched, obs)
+        key = "R" + " ".join(susrender.sx(v) for v in vs) + str(sched)
+        nested = any(c[0] == "sus" or (c[0] == "async" and any(x[0] == "sus" for x in c[2])) for v in vs if v[0] == "sus" for c in v[2])
+        chk.note_case(key, nested and len(sched) >= 2)
+        inp = {"view": " ".join(susrender.sx(v) for v in vs), "gates_opened_in_order": sched}
+        if fails:
+            orfail.append({"program": inp["view"], "schedule": str(sched), "failures": fails[:4], "output": seen})
+        if rmodel is not None and susrender.normalize_model(rmodel[i]) != seen:
+            mism.append({"program": inp["view"], "schedule": str(sched), "impl": seen, "model": rmodel[i]})
+            rmism.append(i)
+    chk.traces += len(rcases) if rmodel is not None else 0
+    chk.obligation("correspondence: Stream.v = the three SSR modes on %d (view, gate order) pairs" % len(rcases), rmodel is not None and not rmism, str(mism[-1:]))
+    chk.obligation("oracle: sync = fallbacks; blocking returns exactly when all tasks finished with every boundary resolved; streaming = shell once, "
+                   "each boundary once, never before its parent (the inline script finds its markers), shell + fragments = blocking result",
+                   not [o for o in orfail if o["program"].startswith("(")], str(orfail[:1]))
+    chk.sample({"view": " ".join(susrender.sx(v) for v in rcases[-1][0]), "schedule": rcases[-1][1], "observed": susrender.model_lines(susrender.observe(*rimpl[-1]), rcases[-1][1])})
     if orfail:
         orfail.sort(key=lambda o: len(o["program"]) + len(o["schedule"]))
         chk.violation({"property": PID, "kind": "oracle failure on implementation output", "input": orfail[0], "count": len(orfail), "also_broken": broken})
